@@ -23,6 +23,7 @@ fl = z3.Function("fl", z3.RealSort(), z3.RealSort())  # float rounding, exactnes
 RMapS = z3.ArraySort(PyStr, z3.RealSort())
 SeqCSet = z3.SeqSort(CSetS)
 
+StateRefS = z3.DeclareSort("ElectionStateRef")  # opaque reference to a recorded ElectionState
 # opaque sorts for fields whose content no contract inspects
 IdS = z3.DeclareSort("PyId")          # Optional[str] ballot id (None is one element)
 VoterS = z3.DeclareSort("PyVoterSet")  # Optional[set[str]]
@@ -55,6 +56,17 @@ ProfileS.declare(
 )
 ProfileS = ProfileS.create()
 
+FnS = z3.DeclareSort("PyFunction")
+_fn_consts: dict[str, z3.ExprRef] = {}
+
+
+def fn_const(name: str):
+    """identity of a named function object"""
+    if name not in _fn_consts:
+        _fn_consts[name] = z3.Const("fn_" + "".join(ch if ch.isalnum() else "_" for ch in name), FnS)
+    return _fn_consts[name]
+
+
 _str_consts: dict[str, z3.ExprRef] = {}
 
 
@@ -66,7 +78,11 @@ def str_const(s: str):
 
 def str_distinct_facts():
     cs = list(_str_consts.values())
-    return [z3.Distinct(*cs)] if len(cs) > 1 else []
+    out = [z3.Distinct(*cs)] if len(cs) > 1 else []
+    fs = list(_fn_consts.values())
+    if len(fs) > 1:
+        out.append(z3.Distinct(*fs))
+    return out
 
 
 def str_name(term) -> str | None:
@@ -101,7 +117,9 @@ Str = _Prim("Str", PyStr)
 CSet = _Prim("CSet", CSetS)
 Ballot = _Prim("Ballot", BallotS)
 Profile = _Prim("Profile", ProfileS)
+StateRef = _Prim("StateRef", StateRefS)
 NoneS = _Prim("None", None)
+Fn = _Prim("Fn", None)  # function-valued parameter/field (opaque)
 
 
 class Seq(Sort):
@@ -231,8 +249,19 @@ class VObj(V):  # mutable python object
 
 
 class VFunc(V):
-    def __init__(self, name, impl=None, node=None, module=None, bound=None):
+    def __init__(self, name, impl=None, node=None, module=None, bound=None, term=None):
         self.name, self.impl, self.node, self.module, self.bound = name, impl, node, module, bound
+        self._term = term
+
+    @property
+    def term(self):
+        """identity of the function object (named functions are distinct constants)"""
+        if self._term is None:
+            if isinstance(self.node, __import__("ast").Lambda):
+                self._term = z3.Const(fresh_name("lambda"), FnS)
+            else:
+                self._term = fn_const(self.name)
+        return self._term
 
 
 class VPyList(V):
@@ -264,12 +293,16 @@ def fresh(sort: Sort, name: str) -> V:
         return VStr(z3.Const(n, PyStr))
     if sort is CSet:
         return VSet(z3.Const(n, CSetS))
+    if sort is StateRef:
+        return VRec(z3.Const(n, StateRefS), "StateRef")
     if sort is Ballot:
         return VRec(z3.Const(n, BallotS), "Ballot")
     if sort is Profile:
         return VRec(z3.Const(n, ProfileS), "Profile")
     if sort is NoneS:
         return NONE
+    if sort is Fn:
+        return VFunc(n, term=z3.Const(n, FnS))
     if isinstance(sort, Seq):
         return VSeq(z3.Const(n, sort.z3()), sort.elem, sort.kind)
     if isinstance(sort, Opt):
@@ -296,6 +329,8 @@ def wrap(sort: Sort, term) -> V:
         return VStr(term)
     if sort is CSet:
         return VSet(term)
+    if sort is StateRef:
+        return VRec(term, "StateRef")
     if sort is Ballot:
         return VRec(term, "Ballot")
     if sort is Profile:
@@ -317,7 +352,7 @@ def sort_of(v: V) -> Sort:
     if isinstance(v, VSeq):
         return Seq(v.elem, v.kind)
     if isinstance(v, VRec):
-        return Ballot if v.cls == "Ballot" else Profile
+        return {"Ballot": Ballot, "Profile": Profile, "StateRef": StateRef}[v.cls]
     if isinstance(v, VOpt):
         return Opt(sort_of(v.val))
     if isinstance(v, VDict):
@@ -326,6 +361,8 @@ def sort_of(v: V) -> Sort:
         return Tup(*[sort_of(i) for i in v.items])
     if isinstance(v, VNone):
         return NoneS
+    if isinstance(v, VFunc):
+        return Fn
     if isinstance(v, VObj):
         return Obj(v.cls, {k: sort_of(x) for k, x in v.fields.items()})
     raise TypeError(f"sort_of: {v!r}")
